@@ -78,6 +78,7 @@ def real_args(chk, ex_, M, builder=None, cli=None):
     return {'insert_features': got['insert_features'][0], 'execute': got['execute'][0]}
 
 
+@common.part
 def obligations(chk, prop, which=('retry', 'retry_after', 'retry_filter', 'concurrency', 'fail_fast')):
     prog = chk.prog
     t = prog.tables
